@@ -1295,10 +1295,10 @@ def in_theorem_class(ops):
 
 
 def in_lazy_theorem_class(ops):
-    """mirror of `AdmSegs true (segs ops)` and `lazyRaw ops` (Lemmas/TfTraceInv.lean, Model/TfTrace.lean):
-    the chains covered by lazy_raw_chain_wellnested -- per segment (between two buffer() barriers) one writer
-    per buffer, a buffer written earlier in the segment read only on a Good marking, no buffer written by
-    a link that (or a link before which) reads it; operations admitted on the marking as in `Admissible`"""
+    """mirror of `Admissible true ops`, `OneWriter [] ops` and `lazyRaw ops` (Lemmas/TfChains.lean, TfTraceInv.lean,
+    Model/TfTrace.lean): the chains covered by lazy_raw_chain_wellnested -- operations admitted on the marking as
+    in `Admissible`; between two buffer() barriers one writer per buffer, and no buffer written by a link that
+    (or a link before which) reads it"""
     good = True
     w, r = set(), set()
     for op in ops:
@@ -1313,8 +1313,6 @@ def in_lazy_theorem_class(ops):
                 return False
             w.add(op[1])
         elif n in G.INJECT and op[1][0] == 'buf':
-            if op[1][1] in w and not good:
-                return False
             r.add(op[1][1])
         if n in ('select', 'end'):
             good = True
